@@ -62,6 +62,7 @@ ByteOK == st[1] = "byte" =>
    /\ (b \in 0..23 => IncMod(b, 24) = (b + 1) % 24) /\ (b \in 0..59 => IncMod(b, 60) = (b + 1) % 60)
    /\ (b \in 1..12 => IncModOffset(b, 12, 1) = (b % 12) + 1) /\ (b \in 1..31 => IncModOffset(b, 31, 1) = (b % 31) + 1)
    /\ (b \in 0..99 => IncYearTiny(b) = (b + 1) % 100)                        \* the year helper wraps 99 -> 0
+   /\ (b \in 0..126 => IncYearTiny(b) \in 0..99)                            \* ... and absorbs every year 2000..2126 into its interval
 Dump == DumpOn =>
    PrintT(ToJson(CASE st[1] = "period" -> <<"period", st[2]>> \o FromSeconds(st[2])
                    [] st[1] = "hm" -> <<"hm", st[2], st[3], ForHourMinute(st[2], st[3])>> \o ToHourMinute(ForHourMinute(st[2], st[3]))
